@@ -118,7 +118,10 @@ class LoopHoistMemRef(RewritePattern):
                 (store := find_same_target_store(load))
                 and parent_block.get_operation_index(load)
                 < parent_block.get_operation_index(store)
-                and not any(is_loop_dependent(idx, for_op) for idx in load.indices)
+                and not any(
+                    is_loop_dependent(idx, for_op) or for_op.is_ancestor(idx.owner)
+                    for idx in load.indices
+                )
             ):
                 load_store_pairs[load] = store
 
